@@ -54,6 +54,10 @@ CHECKS = {
    text="Bounded exhaustive input enumeration on the real codec: every byte string up to a length bound, a grammar-directed malformed set with boundary length fields up to 2^64-1, every value tree over boundary alphabets round-tripped, and every public derived wire decoder fed with all of these plus single-byte/bit mutations of valid encodings; all public accessors called on each input, with overflow checks on and a hang watchdog.",
    note="Checked build has overflow checks and debug assertions on; values beyond the boundary alphabets, strings above 65537 bytes and trees above 4 nodes are outside the bound.",
    tech="bounded exhaustive input enumeration against round-trip / no-panic / in-bounds oracles"),
+ "C17": dict(cat="exploration",
+   text="Per format (message header, protocol header, status report, the five BDX message layouts, check-in message, base-38, QR payload, manual pairing code, BLE advertisement, mDNS announcement / query / answer): every combination of boundary field values is encoded with the real encoder, decoded with the real decoder and compared field by field; every byte string up to a small length and every truncation / extension / per-byte substitution of valid encodings is offered to every decoder, which must return a value or an error, terminate, and return only values that re-encode to the input; manual pairing codes: every single-digit substitution, every adjacent transposition and every out-of-range digit group (with a correct check digit) of the generated codes must be refused; base-38: the decoder must agree with an independent reference decoder on every text of the catalog, refusing invalid characters, impossible chunk lengths and out-of-range chunks; check-in: every single bit of a message is protected.",
+   note="The certificate conversion between Matter and X.509 form is exercised through C19 only (each generated certificate is converted for signing and again for verification); the certification declaration decoder is not covered. Field values between the boundary values are assumed to behave like them.",
+   tech="bounded exhaustive input enumeration against round-trip / refusal / no-panic oracles and an independent reference decoder"),
  "C18": dict(cat="model_checking",
    text="Two real Btp ends joined by FIFO queues: BFS over all interleavings of submit/poll/deliver/fetch/ack-timer steps (incl. states next to the 8-bit sequence wrap) with delivery, window, ack-deadline and bounded-liveness oracles in every state; plus, at every state of a conforming conversation, injection of a full boundary catalog of hostile data and handshake segments against a reference of what must be refused.",
    note="GATT is ordered and lossless; ack deadline checked when the application has fetched every complete message; a hostile handshake on an established session only has to be survived.",
